@@ -214,6 +214,15 @@ type c38Mirror struct {
 	e     *Exec
 	holes *[]*Term
 	cache map[types.Type]reflect.Type
+	pua   bool // a concrete byte 0xEE / 0xEF (lead byte of the hole runes) was seen
+}
+
+// check refuses the one combination the hole encoding cannot represent: literal private-use-area
+// bytes next to symbolic bytes. A text without symbolic bytes is passed through unchanged.
+func (m *c38Mirror) check() {
+	if m.pua && len(*m.holes) > 0 {
+		m.e.unsupported("encoding/json model: private-use-area bytes together with symbolic bytes")
+	}
 }
 
 func (m *c38Mirror) typ(t types.Type) reflect.Type {
@@ -286,7 +295,7 @@ func (m *c38Mirror) str(s *Str) string {
 	e := m.e
 	if cs, ok := s.Concrete(); ok {
 		if strings.IndexByte(cs, 0xEE) >= 0 || strings.IndexByte(cs, 0xEF) >= 0 {
-			e.unsupported("encoding/json model: text with a private-use-area lead byte")
+			m.pua = true
 		}
 		return cs
 	}
@@ -294,7 +303,7 @@ func (m *c38Mirror) str(s *Str) string {
 	for _, t := range s.b {
 		if t.IsConst() {
 			if t.Val == 0xEE || t.Val == 0xEF {
-				e.unsupported("encoding/json model: text with a private-use-area lead byte")
+				m.pua = true
 			}
 			sb.WriteByte(byte(t.Val))
 			continue
@@ -316,16 +325,14 @@ func (m *c38Mirror) unstr(s string) []*Term {
 	e := m.e
 	out := make([]*Term, 0, len(s))
 	for i := 0; i < len(s); {
-		if s[i] == 0xEE || s[i] == 0xEF {
+		if len(*m.holes) > 0 && (s[i] == 0xEE || s[i] == 0xEF) {
 			r, n := utf8.DecodeRuneInString(s[i:])
 			if k := int(r) - c38HoleBase; n == 3 && k >= 0 && k < len(*m.holes) {
 				out = append(out, (*m.holes)[k])
 				i += n
 				continue
 			}
-			if len(*m.holes) > 0 {
-				e.unsupported("encoding/json model: private-use rune that is not a symbolic byte")
-			}
+			e.unsupported("encoding/json model: private-use rune that is not a symbolic byte")
 		}
 		out = append(out, e.ts.BV(8, uint64(s[i])))
 		i++
@@ -431,6 +438,7 @@ func (m *c38Mirror) text(bs []*Term) []byte {
 	if len(bs) == 0 {
 		txt = nil
 	}
+	m.check()
 	if len(*m.holes) == 0 {
 		return txt
 	}
@@ -523,6 +531,7 @@ func c38DecodeInto(e *Exec, m *c38Mirror, target Value, decode func(ptr any) err
 	rt := m.typ(pt.Elem())
 	rp := reflect.New(rt)
 	m.toReflect(rp.Elem(), pt.Elem(), e.load(ptr))
+	m.check()
 	err := decode(rp.Interface())
 	e.store(ptr, m.fromReflect(rp.Elem(), pt.Elem()))
 	return c38JSONErr(e, err)
@@ -786,9 +795,8 @@ func c38Register(p *Program) {
 		if sp == nil || sp.Func("copyBuffer") == nil {
 			e.unsupported("io must be listed in check.json std")
 		}
-		buf := e.newByteSlice(make([]*Term, 0))
 		arr := e.newArrayLoc(types.Typ[types.Uint8], 256)
-		buf = Slice{arr: arr, len: 256, cap: 256}
+		buf := Slice{arr: arr, len: 256, cap: 256}
 		r := e.callFunction(fr, sp.Func("copyBuffer"), []Value{args[0], args[1], buf}, nil)
 		e.curFrame = fr
 		return r
@@ -862,6 +870,7 @@ func c38Register(p *Program) {
 		}
 		rp := reflect.New(m.typ(t))
 		m.toReflect(rp.Elem(), t, v)
+		m.check()
 		out, err := json.Marshal(rp.Elem().Interface())
 		if err != nil {
 			return Tuple{Slice{}, c38JSONErr(e, err)}
